@@ -1,7 +1,6 @@
 package simsync
 
 import (
-	"fmt"
 	"reflect"
 	"sort"
 	"strconv"
@@ -39,7 +38,7 @@ func MapEntries[M ~map[K]V, K comparable, V any](m M) []Entry[M, K, V] {
 	if n == 1 {
 		return es
 	}
-	idx := canonicalOrder(n, func(i int, full bool) string { return valueStringMode(reflect.ValueOf(es[i].K), 0, full) })
+	idx := canonicalOrderOf(n, func(i int) reflect.Value { return reflect.ValueOf(es[i].K) })
 	order := mapOrder(n)
 	out := make([]Entry[M, K, V], n)
 	for i := range out {
@@ -97,7 +96,7 @@ func MapRange(v reflect.Value) *MapIter {
 	ks := v.MapKeys()
 	n := len(ks)
 	if n > 1 {
-		idx := canonicalOrder(n, func(i int, full bool) string { return valueStringMode(ks[i], 0, full) })
+		idx := canonicalOrderOf(n, func(i int) reflect.Value { return ks[i] })
 		order := mapOrder(n)
 		it.keys = make([]reflect.Value, n)
 		for i := range it.keys {
@@ -131,10 +130,12 @@ func (it *MapIter) Reset(v reflect.Value) {
 // its name, or for an anonymous type its kind, field names, field type names and tags, one level deep); only keys
 // whose signatures tie are compared by their full rendering (the complete type string, which for deeply nested
 // anonymous struct types is very long).
-func canonicalOrder(n int, render func(i int, full bool) string) []int {
-	sig := make([]string, n)
-	for i := range sig {
-		sig[i] = render(i, false)
+// canonicalOrderOf sorts n keys by a 64-bit hash of their content (no strings are built); keys whose hashes tie are
+// compared by their full rendering.
+func canonicalOrderOf(n int, key func(i int) reflect.Value) []int {
+	hs := make([]uint64, n)
+	for i := range hs {
+		hs[i] = keyHash(fnvOff, key(i), 0)
 	}
 	var full []string
 	fullOf := func(i int) string {
@@ -142,7 +143,7 @@ func canonicalOrder(n int, render func(i int, full bool) string) []int {
 			full = make([]string, n)
 		}
 		if full[i] == "" {
-			full[i] = "=" + render(i, true)
+			full[i] = "=" + valueStringMode(key(i), 0, true)
 		}
 		return full[i]
 	}
@@ -152,12 +153,106 @@ func canonicalOrder(n int, render func(i int, full bool) string) []int {
 	}
 	sort.SliceStable(idx, func(a, b int) bool {
 		x, y := idx[a], idx[b]
-		if sig[x] != sig[y] {
-			return sig[x] < sig[y]
+		if hs[x] != hs[y] {
+			return hs[x] < hs[y]
 		}
 		return fullOf(x) < fullOf(y)
 	})
 	return idx
+}
+
+const (
+	fnvOff   = uint64(1469598103934665603)
+	fnvPrime = uint64(1099511628211)
+)
+
+func mix(h, v uint64) uint64 {
+	for i := 0; i < 8; i++ {
+		h ^= v & 0xff
+		h *= fnvPrime
+		v >>= 8
+	}
+	return h
+}
+
+func mixStr(h uint64, s string) uint64 {
+	for i := 0; i < len(s); i++ {
+		h ^= uint64(s[i])
+		h *= fnvPrime
+	}
+	return mix(h, uint64(len(s)))
+}
+
+// typeHash is the hash of the cheap signature of a type (memoised with it).
+func typeHash(t reflect.Type) uint64 {
+	p := typePtr(t)
+	if h, ok := sigHashGet(p); ok {
+		return h
+	}
+	typeSig(t, 0) // fills the memo
+	if h, ok := sigHashGet(p); ok {
+		return h
+	}
+	return mixStr(fnvOff, typeSig1(t, 0))
+}
+
+// keyHash folds the content of a key into h, following the same rules as valueStringMode with full == false.
+func keyHash(h uint64, v reflect.Value, depth int) uint64 {
+	if !v.IsValid() {
+		return mix(h, 1)
+	}
+	if depth > 4 {
+		return mix(h, typeHash(v.Type()))
+	}
+	if v.Kind() == reflect.Ptr && (v.Type() == rtypePtrType || v.Type().Implements(typeOfType)) {
+		if v.CanInterface() {
+			if t, ok := v.Interface().(reflect.Type); ok && t != nil {
+				return mix(mix(h, 2), typeHash(t))
+			}
+		} else if !v.IsNil() {
+			if t := typeFromPtr(v); t != nil {
+				return mix(mix(h, 2), typeHash(t))
+			}
+		}
+	}
+	switch v.Kind() {
+	case reflect.String:
+		return mixStr(mix(h, 3), v.String())
+	case reflect.Int, reflect.Int8, reflect.Int16, reflect.Int32, reflect.Int64:
+		return mix(mix(h, 4), uint64(v.Int()))
+	case reflect.Uint, reflect.Uint8, reflect.Uint16, reflect.Uint32, reflect.Uint64, reflect.Uintptr:
+		return mix(mix(h, 5), v.Uint())
+	case reflect.Bool:
+		if v.Bool() {
+			return mix(h, 7)
+		}
+		return mix(h, 6)
+	case reflect.Float32, reflect.Float64:
+		return mixStr(mix(h, 8), strconv.FormatFloat(v.Float(), 'g', -1, 64))
+	case reflect.Interface:
+		if v.IsNil() {
+			return mix(h, 1)
+		}
+		return keyHash(h, v.Elem(), depth)
+	case reflect.Ptr:
+		if v.IsNil() {
+			return mix(mix(h, 9), typeHash(v.Type()))
+		}
+		return keyHash(mix(mix(h, 10), typeHash(v.Type().Elem())), v.Elem(), depth+1)
+	case reflect.Struct:
+		h = mix(mix(h, 11), typeHash(v.Type()))
+		for i := 0; i < v.NumField(); i++ {
+			h = keyHash(h, v.Field(i), depth+1)
+		}
+		return h
+	case reflect.Array:
+		h = mix(mix(h, 12), typeHash(v.Type()))
+		for i := 0; i < v.Len(); i++ {
+			h = keyHash(h, v.Index(i), depth+1)
+		}
+		return h
+	}
+	return mix(mix(h, 13), typeHash(v.Type()))
 }
 
 // KeyString renders a map key by content, without addresses where possible.
@@ -167,8 +262,68 @@ func KeyString(k interface{}) string {
 
 func valueString(v reflect.Value, depth int) string { return valueStringMode(v, depth, true) }
 
+func pad20(u uint64) string {
+	var b [20]byte
+	for i := 19; i >= 0; i-- {
+		b[i] = byte('0' + u%10)
+		u /= 10
+	}
+	return string(b[:])
+}
+
+// A small direct-mapped memo of type signatures, keyed by the type's identity. It is touched by whichever task runs
+// (tasks never run at the same time) through accessors the race detector does not instrument: plain loads and stores,
+// which neither produce reports about the simulator's own bookkeeping nor add happens-before edges between tasks.
+type sigEnt struct {
+	t   reflect.Type // pins the type: its address cannot be reused while the entry lives
+	p   unsafe.Pointer
+	sig string
+	h   uint64
+}
+
+//go:norace
+func sigHashGet(p unsafe.Pointer) (uint64, bool) {
+	e := &sigTab[(uintptr(p)>>4^uintptr(p)>>17)&(1<<13-1)]
+	if e.p == p {
+		return e.h, true
+	}
+	return 0, false
+}
+
+var sigTab [1 << 13]sigEnt
+
+func typePtr(t reflect.Type) unsafe.Pointer { return (*[2]unsafe.Pointer)(unsafe.Pointer(&t))[1] }
+
+//go:norace
+func sigGet(p unsafe.Pointer) (string, bool) {
+	e := &sigTab[(uintptr(p)>>4^uintptr(p)>>17)&(1<<13-1)]
+	if e.p == p {
+		return e.sig, true
+	}
+	return "", false
+}
+
+//go:norace
+func sigPut(t reflect.Type, p unsafe.Pointer, sig string) {
+	e := &sigTab[(uintptr(p)>>4^uintptr(p)>>17)&(1<<13-1)]
+	e.t, e.p, e.sig, e.h = t, p, sig, mixStr(fnvOff, sig)
+}
+
 // typeSig is the cheap signature of a type (see canonicalOrder).
 func typeSig(t reflect.Type, depth int) string {
+	if depth == 0 {
+		p := typePtr(t)
+		if s, ok := sigGet(p); ok {
+			return s
+		}
+		s := typeSig1(t, 0)
+		sigPut(t, p, s)
+		return s
+	}
+	return typeSig1(t, depth)
+}
+
+func typeSig1(t reflect.Type, depth int) string {
 	if t.Name() != "" {
 		return t.PkgPath() + "." + t.Name()
 	}
@@ -177,12 +332,12 @@ func typeSig(t reflect.Type, depth int) string {
 		if depth >= 2 {
 			return t.Kind().String()
 		}
-		return t.Kind().String() + "(" + typeSig(t.Elem(), depth+1) + ")"
+		return t.Kind().String() + "(" + typeSig1(t.Elem(), depth+1) + ")"
 	case reflect.Map:
 		if depth >= 2 {
 			return "map"
 		}
-		return "map(" + typeSig(t.Key(), depth+1) + "," + typeSig(t.Elem(), depth+1) + ")"
+		return "map(" + typeSig1(t.Key(), depth+1) + "," + typeSig1(t.Elem(), depth+1) + ")"
 	case reflect.Struct:
 		s := "struct#" + strconv.Itoa(t.NumField()) + "{"
 		for i := 0; i < t.NumField(); i++ {
@@ -203,6 +358,9 @@ func typeText(t reflect.Type, full bool) string {
 
 var typeOfType = reflect.TypeOf((*reflect.Type)(nil)).Elem()
 
+// rtypePtrType is *reflect.rtype, the dynamic type of the values package reflect hands out as reflect.Type.
+var rtypePtrType = reflect.TypeOf(reflect.TypeOf(0))
+
 func valueStringMode(v reflect.Value, depth int, full bool) string {
 	if !v.IsValid() {
 		return "<nil>"
@@ -210,8 +368,9 @@ func valueStringMode(v reflect.Value, depth int, full bool) string {
 	if depth > 4 {
 		return typeText(v.Type(), full)
 	}
-	// a reflect.Type held in the value: its String() is its content
-	if v.Type().Implements(typeOfType) && v.Kind() != reflect.Interface {
+	// a reflect.Type held in the value: its String() is its content. (*reflect.rtype is by far the most common
+	// implementation; the general Implements test is slow and only made for other pointer types.)
+	if v.Kind() == reflect.Ptr && (v.Type() == rtypePtrType || v.Type().Implements(typeOfType)) {
 		if v.CanInterface() {
 			if t, ok := v.Interface().(reflect.Type); ok && t != nil {
 				return typeText(t, full)
@@ -227,9 +386,9 @@ func valueStringMode(v reflect.Value, depth int, full bool) string {
 	case reflect.String:
 		return "s:" + v.String()
 	case reflect.Int, reflect.Int8, reflect.Int16, reflect.Int32, reflect.Int64:
-		return "i:" + fmt.Sprintf("%020d", v.Int()+(1<<62))
+		return "i:" + pad20(uint64(v.Int()+(1<<62)))
 	case reflect.Uint, reflect.Uint8, reflect.Uint16, reflect.Uint32, reflect.Uint64, reflect.Uintptr:
-		return "u:" + fmt.Sprintf("%020d", v.Uint())
+		return "u:" + pad20(v.Uint())
 	case reflect.Bool:
 		return "b:" + strconv.FormatBool(v.Bool())
 	case reflect.Float32, reflect.Float64:
